@@ -105,6 +105,11 @@ CAT = [
     ["oracle", "TABLESPACE index", {"tablespace": {"tablespace_name": "index", "properties": None, "type": None, "temporary": False}},
      {"tablespace": {"tablespace_name": "index", "properties": None, "type": None, "temporary": False}}],
     ["redshift", "DISTKEY(order)", {"distkey": "order"}, {"table_properties": {"distkey": "order"}}],
+    # a RegexSerDe whose "input.regex" holds backslash-t: the regex is cut out BEFORE the script's tabs are normalised (the backslashes
+    # come back doubled and the key is a placeholder - both known C07 matters - but the characters t and d stay where they were)
+    ["hql", "ROW FORMAT SERDE 'org.apache.hadoop.hive.serde2.RegexSerDe' WITH SERDEPROPERTIES (\"input.regex\" = \"([^\\t]*)\\t(\\d+)\")",
+     {"row_format": {"serde": True, "java_class": "'org.apache.hadoop.hive.serde2.RegexSerDe'", "properties": {"parse_m_input_regex": ' "([^\\\\t]*)\\\\t(\\\\d+)"'}}},
+     {"table_properties": {"row_format": {"serde": True, "java_class": "'org.apache.hadoop.hive.serde2.RegexSerDe'", "properties": {"parse_m_input_regex": ' "([^\\\\t]*)\\\\t(\\\\d+)"'}}}}],
     # BigQuery's own spelling of a multi-column clustering: a comma list WITHOUT parentheses
     ["bigquery", "CLUSTER BY a, b", {"cluster_by": ["a", "b"]}, {"table_properties": {"cluster_by": ["a", "b"]}}],
     ["bigquery", "CLUSTER BY a, b, dt", {"cluster_by": ["a", "b", "dt"]}, {"table_properties": {"cluster_by": ["a", "b", "dt"]}}],
@@ -179,6 +184,7 @@ def gen_cases(tier):
                     cases.append({"two": [i, j], "mode": m})
                 # the same two tables without ';' terminators (the first statement is ended by the start of the second)
                 cases.append({"two": [i, j], "mode": mode, "nosemi": True})
+                cases.append({"two": [i, j], "mode": mode, "nosemi": "first"})  # only the FIRST statement lacks its ';'
     return cases
 
 
@@ -186,7 +192,8 @@ def build(case):
     if "two" in case:
         i, j = case["two"]
         end = "" if case.get("nosemi") else ";"
-        return BODIES["plain"] + " " + CAT[i][1] + end + "\n" + BODY2 + " " + CAT[j][1] + end
+        end2 = ";" if case.get("nosemi") == "first" else end
+        return BODIES["plain"] + " " + CAT[i][1] + end + "\n" + BODY2 + " " + CAT[j][1] + end2
     return BODIES[case["body"]] + " " + " ".join(CAT[i][1] for i in case["clauses"]) + ";"
 
 
